@@ -21,6 +21,7 @@
 package engine
 
 import (
+	"fmt"
 	"go/token"
 	"reflect"
 
@@ -41,6 +42,21 @@ func (c *replacerCompiler) compileGeneric(v reflect.Value) (r Replacer) {
 	default:
 		return ValueReplacer{Value: v}
 	}
+}
+
+// assign sets dst to src. It reports an error instead of panicking if the
+// generated value does not fit there, e.g. when the patch places an
+// expression metavariable where only an identifier can go.
+func assign(dst, src reflect.Value) error {
+	if !src.IsValid() || !src.Type().AssignableTo(dst.Type()) {
+		var got interface{} = "nothing"
+		if src.IsValid() {
+			got = src.Type()
+		}
+		return fmt.Errorf("cannot use %v where %v is expected", got, dst.Type())
+	}
+	dst.Set(src)
+	return nil
 }
 
 // PtrReplacer replaces a pointer type.
@@ -69,7 +85,12 @@ func (r PtrReplacer) Replace(d data.Data, cl Changelog, pos token.Pos) (reflect.
 	}
 
 	v := reflect.New(r.Type).Elem()
-	v.Set(x.Addr())
+	if !x.IsValid() || !x.CanAddr() {
+		return reflect.Value{}, fmt.Errorf("cannot use generated value where %v is expected", r.Type)
+	}
+	if err := assign(v, x.Addr()); err != nil {
+		return reflect.Value{}, err
+	}
 	return v, nil
 }
 
@@ -107,7 +128,9 @@ func (r SliceReplacer) Replace(d data.Data, cl Changelog, pos token.Pos) (reflec
 		if err != nil {
 			return reflect.Value{}, err
 		}
-		v.Index(i).Set(item)
+		if err := assign(v.Index(i), item); err != nil {
+			return reflect.Value{}, err
+		}
 	}
 
 	return v, nil
@@ -143,7 +166,9 @@ func (r StructReplacer) Replace(d data.Data, cl Changelog, pos token.Pos) (refle
 		if err != nil {
 			return reflect.Value{}, err
 		}
-		v.Field(i).Set(fv)
+		if err := assign(v.Field(i), fv); err != nil {
+			return reflect.Value{}, err
+		}
 	}
 	return v, nil
 }
@@ -173,7 +198,9 @@ func (r InterfaceReplacer) Replace(d data.Data, cl Changelog, pos token.Pos) (re
 	}
 
 	v := reflect.New(r.Type).Elem()
-	v.Set(x)
+	if err := assign(v, x); err != nil {
+		return reflect.Value{}, err
+	}
 	return v, nil
 }
 
